@@ -97,7 +97,7 @@ pub fn run(ctx: &Ctx, rep: &mut Report) {
                 continue;
             }
             item += 1;
-            let (ex, rnd) = if ctx.thorough() { (16, 4096) } else { (10, 96) };
+            let (ex, rnd) = if ctx.thorough() { (16, 4096) } else { (12, 512) };
             for val in sweep_values(f.width as usize, &mut r, ex, rnd) {
                 let mut bits = fresh(b, &mut r);
                 bits.put(f.start as usize, f.width as usize, val);
@@ -133,7 +133,7 @@ pub fn run(ctx: &Ctx, rep: &mut Report) {
         }
         // (ii) joint random assignments
         if ctx.mine(item) {
-            for _ in 0..ctx.budget(400, 40_000) {
+            for _ in 0..ctx.budget(6000, 150_000) {
                 let bits = fresh(b, &mut r);
                 n += 1;
                 one(rep, b, &bits, via_for(n), "*", "joint-random");
